@@ -340,13 +340,14 @@ def impl_partition(case, variant="object", weakly=None):
     return [list(layer) for layer in part]
 
 
-def impl_infer(case, system, pmaxsat="rc2", weakly=None, **kw):
-    """InferenceManager.inference on the working tree: list of answers, or a tagged outcome."""
+def impl_infer(case, system, pmaxsat="rc2", weakly=None, bb=None, **kw):
+    """InferenceManager.inference on the working tree: list of answers, or a tagged outcome.  bb: an existing BeliefBase object
+    of the case to be used again (histories on one object)."""
     setup_impl_env()
     from inference.inference_manager import InferenceManager
 
     weakly = case["weakly"] if weakly is None else weakly
-    bb = build_bb(case)
+    bb = build_bb(case) if bb is None else bb
     qs = build_queries(case)
     try:
         mgr = InferenceManager(bb, system, "z3", pmaxsat, weakly)
